@@ -10,6 +10,7 @@ Decided:
 Not decided: that indices written by the builder were right before
 renumbering; distinctness of unique names (hash values are run-time data).
 """
+from . import gates as G
 from ..facts import peel, strip_casts, show, walk, cond_atom
 from .common import (callee_short, field_of, base_of, deref, assigned_target, const_int,
                      iter_container, local_ref, resolve_typedef, enclosing_loops, loop_container)
@@ -135,6 +136,40 @@ def run(ctx):
                 bad.append(stmt)
                 continue
             got.add(describe_lvalue(fn, lhs, stmt))
+        # every rewrite runs on every path through remap_indices: an early return / a conditional skip leaves stale
+        # indices behind in the records it skips
+        n_uncond = 0
+        for lhs, stmt in remapped_lvalues(fn):
+            if lhs is None:
+                continue
+            n_uncond += 1
+            anchor = stmt
+            for a in fn.ancestors(stmt):
+                if a.get("k") in ("for", "forrange", "while"):
+                    anchor = a
+            if anchor is stmt:
+                loc = fn.cfg.locate(stmt)
+            else:
+                head = anchor.get("c") if anchor.get("k") in ("for", "while") else None
+                loc = fn.cfg.locate(head) if head is not None else None
+                if loc is None:
+                    # range-for / condition-less loop: fall back to "no branch encloses the loop"
+                    loc = fn.cfg.locate(anchor.get("range")) if anchor.get("range") is not None else None
+            def zero_test_of_same(a):
+                # `if (x != 0) x = remap.map_from(x)`: index 0 means "none" and maps to itself
+                if a.get("k") != "if" or a.get("else") is not None:
+                    return False
+                c = G.cmp_atom(peel(a.get("c")))
+                return bool(c) and c[0] == "!=" and ((show(strip_casts(c[1])) == show(strip_casts(lhs)) and const_int(c[2]) == 0) or
+                                                     (show(strip_casts(c[2])) == show(strip_casts(lhs)) and const_int(c[1]) == 0))
+            enclosing = [a for a in fn.ancestors(anchor) if a.get("k") in ("if", "switch", "cond", "case", "default")]
+            guarded = [a.get("k") for a in enclosing if not zero_test_of_same(a)]
+            ok = not guarded
+            if ok and loc is not None and not enclosing:
+                ok = fn.cfg.exit not in fn.cfg.reachable(cut_blocks=[loc[0]])
+            d = describe_lvalue(fn, lhs, stmt)
+            ctx.ob("R11.1", "%s::remap_indices|%s|on-every-path" % (rec, "/".join(str(x) for x in d)), ok, fn.loc(stmt),
+                   "`%s` %s" % (show(stmt)[:60], "runs on every path through remap_indices" if ok else "can be skipped (conditional or behind an early return)"))
         for stmt in bad:
             ctx.ob("R11.1", "%s::remap_indices|cross-assignment" % rec, False, fn.loc(stmt),
                    "assigns map_from of a different lvalue: %s" % show(stmt))
